@@ -8,6 +8,15 @@ VARIABLES i, l, st
 Tol == 5
 
 AbsM(S) == [a \in 1..Len(S) |-> [b \in 1..Len(S) |-> Abs(S[a][b])]]
+\* local links suppressed: the documented weight 0.5 (tanh(20 (d - 0.05)) + 1) lies in (0.2, 0.3) for the
+\* near pairs of the harness' grids (1 - 1.5 degrees apart) and above 0.98 for all others (>= 30 degrees)
+NonLocalDef(S, thr6, adj, near) ==
+  \A p \in OffDiag(Len(S)) :
+    LET s6 == S[p[1]][p[2]] * 250000  isnear == \E k \in 1..Len(near) : near[k] = <<p[1], p[2]>> IN
+    IF isnear THEN /\ (s6 * 2 > 10 * thr6 => adj[p[1]][p[2]] = 1)
+                   /\ (s6 * 3 < 10 * thr6 => adj[p[1]][p[2]] = 0)
+    ELSE /\ ((s6 \div 50) * 49 > thr6 => adj[p[1]][p[2]] = 1)
+         /\ (s6 <= thr6 => adj[p[1]][p[2]] = 0)
 Observe(rec, s, o) ==
   LET S == AbsM(rec.S4)  N == Len(S)  E == Links(o.adj) IN
   IF o.exc # "" THEN <<"Applicable", o.exc>>
@@ -19,6 +28,7 @@ Observe(rec, s, o) ==
   ELSE IF s.thr # UNKNOWN /\ o.thr # s.thr THEN <<"Consistent", "threshold">>
   ELSE IF o.nl = 0 /\ o.adj # ThresholdAdj(S, o.thr) THEN <<"LinkDef", "adjacency">>
   ELSE IF o.nl = 1 /\ ~Subset(o.adj, ThresholdAdj(S, o.thr)) THEN <<"NonLocalSubset", "adjacency">>
+  ELSE IF o.nl = 1 /\ o.thr >= 0 /\ ~NonLocalDef(S, o.thr, o.adj, rec.near) THEN <<"NonLocalDef", "adjacency">>
   ELSE IF s.rho # <<>> /\ o.nl = 0 /\ ~DensityBound(S, s.rho[1], s.rho[2], o.thr, o.adj)
        THEN <<"DensityBound", "set_link_density">>
   ELSE IF s.rho # <<>> /\ o.nl = 1 /\ ~(E * s.rho[2] <= s.rho[1] * N * (N - 1))
@@ -34,7 +44,7 @@ Observe(rec, s, o) ==
 
 Rec == Trace[i]
 DiagMax(S) == \A a \in 1..Len(S) : \A p \in OffDiag(Len(S)) : Abs(S[a][a]) >= Abs(S[p[1]][p[2]])
-Tags(r) == (IF r.directed = 1 THEN "directed," ELSE "")
+Tags(r) == (IF "kind" \in DOMAIN r THEN r.kind \o "," ELSE "") \o (IF r.directed = 1 THEN "directed," ELSE "")
            \o (IF ~DiagMax(r.S4) THEN "diag_not_max," ELSE "")
            \o "n" \o ToString(Len(r.S4))
 Init == i = 1 /\ l = 1 /\ st = Init0
